@@ -6,7 +6,7 @@ use crate::gen;
 use iref::{iri, uri};
 use std::str::FromStr;
 
-pub const RULE: &str = "cases: grammar-derived valid values and 1-3 edit mutants (about half invalid) for each of the 20 validated types, plus JSON documents with escapes (\\u00e9, \\/, surrogate pairs), non-strings and byte arrays. Outward routes (Display, Debug, as_str/as_bytes, into_string/into_bytes, to_owned, Clone, AsRef, From, serde_json::to_string) must give exactly the parsed text; == with str/&str/String/[u8] must be plain text equality (probed with the text itself and with a different text); inward routes (FromStr, TryFrom, from_vec, serde_json::{from_str, from_slice} into borrowed and owned forms) must accept exactly what the RFC model accepts and keep the text. Non-trivial = every (type, input) on which a value was obtained or a route rejected; distinct by (type, input)";
+pub const RULE: &str = "cases: grammar-derived valid values and 1-3 edit mutants (about half invalid) for each of the 20 validated types, plus JSON documents with escapes (\\u00e9, \\/, surrogate pairs), non-strings and byte arrays. Outward routes (Display, Debug, as_str/as_bytes, Deref, into_string/into_bytes, to_owned, Clone, AsRef, From, serde_json::to_string) must give exactly the parsed text; == with str/&str/String/[u8] must be plain text equality (probed with the text itself and with a different text); inward routes (FromStr, TryFrom, from_vec, serde_json::{from_str, from_slice} into borrowed and owned forms) must accept exactly what the RFC model accepts and keep the text. Non-trivial = every (type, input) on which a value was obtained or a route rejected; distinct by (type, input)";
 
 pub const MANDATORY: &[&str] = &["out:Iri", "out:UriRef", "out:iri::Path", "out:uri::Segment", "out:Scheme", "out:Port", "in-reject:Iri", "in-reject:uri::Host", "serde:owned-ok", "serde:borrowed-ok", "serde:escaped", "serde:rejected-invalid", "serde:rejected-non-string"];
 
@@ -98,6 +98,7 @@ macro_rules! str_type {
                 same($ctx, $name, "Debug", format!("{:?}", s).as_bytes(), format!("{:?}", v).as_bytes());
                 same($ctx, $name, "as_str", b, v.as_str().as_bytes());
                 same($ctx, $name, "as_bytes", b, v.as_bytes());
+                same($ctx, $name, "Deref", b, (&**v).as_bytes());
                 same($ctx, $name, "AsRef<str>", b, AsRef::<str>::as_ref(v).as_bytes());
                 same($ctx, $name, "AsRef<[u8]>", b, AsRef::<[u8]>::as_ref(v));
                 same($ctx, $name, "<&str>::from", b, <&str>::from(v).as_bytes());
@@ -160,6 +161,7 @@ macro_rules! bytes_type {
                 same($ctx, $name, "Debug", format!("{:?}", s).as_bytes(), format!("{:?}", v).as_bytes());
                 same($ctx, $name, "as_str", b, v.as_str().as_bytes());
                 same($ctx, $name, "as_bytes", b, v.as_bytes());
+                same($ctx, $name, "Deref", b, (&**v).as_bytes());
                 same($ctx, $name, "AsRef<str>", b, AsRef::<str>::as_ref(v).as_bytes());
                 same($ctx, $name, "AsRef<[u8]>", b, AsRef::<[u8]>::as_ref(v));
                 same($ctx, $name, "<&str>::from", b, <&str>::from(v).as_bytes());
